@@ -1300,6 +1300,83 @@ def _update_markers(ctx):
                construct='update keeps the deletion markers')
 
 
+_CODECS = {
+    'treadmill.utils': ('to_base_n', 'from_base_n'),
+    'treadmill.appcfg': ('gen_uniqueid', '_fmt_unique_name', 'app_name',
+                         'app_unique_id', 'app_unique_name'),
+    'treadmill.zkutils': ('_payload',),
+    'treadmill.admin._ldap': ('_dict_2_entry', '_entry_2_dict',
+                              '_to_obj_list', '_grouped_to_list_of_dict'),
+}
+
+
+def _codecs_keep_nothing(ctx):
+    """C15.2: what a codec returns depends on its arguments alone: none of
+    the encode / decode routines stores into a module-level name or
+    container (a digit table remembered per base answers the next call,
+    made with another alphabet, from the first alphabet)."""
+    judged = 0
+    for modname, names in sorted(_CODECS.items()):
+        try:
+            mod = ctx.index.module(modname)
+        except Exception:       # pylint: disable=broad-except
+            continue
+        for name in names:
+            func = mod.functions.get(name)
+            if func is None:
+                continue
+            judged += 1
+            kept = K.kept_between_calls(mod, func)
+            ctx.ob('C15.2', func, kept[0] if kept else None, not kept,
+                   '%s keeps nothing between calls (its result depends on '
+                   'its arguments alone)' % name,
+                   construct='%s keeps nothing between calls' % name)
+    ctx.require(judged >= 6, 'codec routines (found %d)' % judged,
+                rule='C15.2')
+
+
+def _every_list_element(ctx):
+    """C15.5: every element of an object list is written: the loop that
+    encodes the elements ranges over the list it was given (sorted, at
+    most) - not over a mapping or set built from it, which keeps one element
+    per key (an endpoint declared for tcp and for udp under one name)."""
+    mod = ctx.index.module(LDAP)
+    func = mod.functions.get('_to_obj_list')
+    ctx.require(func is not None, '_to_obj_list', rule='C15.5')
+    param = func.params()[0]
+    loops = [sub for sub in K.walk_no_nested(func.raw)
+             if isinstance(sub, ast.For) and any(
+                 K.callee_text(c) == '_dict_2_entry'
+                 for st in sub.body for c in K.calls(st))]
+    ctx.require(loops, 'encoding loop of _to_obj_list', rule='C15.5',
+                func=func)
+    defs = {}
+    for sub in K.walk_no_nested(func.raw):
+        if isinstance(sub, ast.Assign) and len(sub.targets) == 1 and \
+                isinstance(sub.targets[0], ast.Name):
+            defs.setdefault(sub.targets[0].id, []).append(sub.value)
+
+    def plain(expr, depth=0):
+        """expr is the given list, possibly sorted / enumerated / copied"""
+        if depth > 5:
+            return False
+        if isinstance(expr, ast.Name):
+            if expr.id == param:
+                return True
+            vals = defs.get(expr.id, [])
+            return len(vals) == 1 and plain(vals[0], depth + 1)
+        if isinstance(expr, ast.Call) and K.callee_text(expr) in (
+                'sorted', 'enumerate', 'list', 'tuple', 'reversed') and \
+                expr.args:
+            return plain(expr.args[0], depth + 1)
+        return False
+    for loop in loops:
+        ctx.ob('C15.5', func, loop, plain(loop.iter),
+               'the elements encoded are those of the list given (sorted at '
+               'most): %s' % N.txt(loop.iter)[:60],
+               construct='every list element encoded')
+
+
 def _wildcard_by_value(ctx):
     """C15.1: a rule whose address is the wildcard is written with the
     wildcard marker - whatever object spells the address.  The rule classes
@@ -1387,6 +1464,8 @@ def _none_slots(ctx, modname, base_name):
 
 
 def check(ctx):
+    _codecs_keep_nothing(ctx)
+    _every_list_element(ctx)
     _wildcard_by_value(ctx)
     _none_slots(ctx, EV_APP, 'AppTraceEvent')
     _update_markers(ctx)
